@@ -28,6 +28,9 @@ func init() {
 		Run:         runC06,
 		Configs:     []string{"linux/amd64", "darwin/amd64", "windows/amd64"},
 		Mutants: []Mutant{
+			{Name: "u1000-key-without-package-path", File: "lintcmd/lint.go", Rule: "R6.6", KeyPart: "identifies-object-within-its-package",
+				Old: "\t\t\t\tkey := unusedKey{\n\t\t\t\t\tpkgPath: res.Package.PkgPath,\n\t\t\t\t\tbase:    filepath.Base(obj.Position.Filename),\n\t\t\t\t\tline:    obj.Position.Line,\n\t\t\t\t\tname:    obj.Name,\n\t\t\t\t}\n\t\t\t\tused[key] = true\n", New: "\t\t\t\tkey := unusedKey{\n\t\t\t\t\tbase: filepath.Base(obj.Position.Filename),\n\t\t\t\t\tline: obj.Position.Line,\n\t\t\t\t\tname: obj.Name,\n\t\t\t\t}\n\t\t\t\tused[key] = true\n",
+				More: []Edit{{File: "lintcmd/lint.go", Old: "\t\t\t\t\tkey := unusedKey{\n\t\t\t\t\t\tpkgPath: res.Package.PkgPath,\n", New: "\t\t\t\t\tkey := unusedKey{\n"}}},
 			{Name: "filehash-cache-unlocked", File: "lintcmd/cache/hash.go", Rule: "R6.1", KeyPart: "SetFileHash",
 				Old: "func SetFileHash(file string, sum [HashSize]byte) {\n\thashFileCache.Lock()\n", New: "func SetFileHash(file string, sum [HashSize]byte) {\n\thashFileCache.Lock()\n\thashFileCache.Unlock()\n"},
 			{Name: "check-memoizes-in-global", File: "stylecheck/st1003/st1003.go", Rule: "R6.1", KeyPart: "st1003",
@@ -574,5 +577,14 @@ func runC06(c *Ctx) {
 			}
 			c.Check(key+f, call.Pos(), chain[f], "field %s is %s but the sort comparator does not order by it: two problems that differ only there keep the order in which they were collected (goroutine/map order), so the output is not byte-identical across runs", f, need[f])
 		}
+	})
+	// R6.6: nothing is shared between packages of one run except what is keyed by
+	// the package: the one map in which results of all packages meet (U1000's
+	// used/unused objects in (*linter).lint) is keyed with the package path, so
+	// the problems reported for a package do not depend on which other packages
+	// are linted in the same invocation (same obligation as C17 R17.3).
+	c.Rule("R6.6", func() {
+		c.Floor("R6.6", 1)
+		unusedKeyObligations(c, c.Func("lintcmd", "(*linter).lint"), false)
 	})
 }
